@@ -34,9 +34,9 @@ Proof.
   intros k Hk. apply C. intro Hp. apply HP in Hp. pose proof (kept_lt _ _ _ _ _ _ _ H Hk). lia.
 Qed.
 
-Lemma envOK_keep : forall c sc ce rho vs vs' n0 lim,
-  envOK sc ce rho vs n0 lim -> keepK c vs vs' -> (forall i, kept sc ce i -> g_keep c i) -> envOK sc ce rho vs' n0 lim.
-Proof. intros c sc ce rho vs vs' n0 lim H [_ K] HK. eapply envOK_same; eauto. Qed.
+Lemma envOK_keep : forall (K : nat -> Prop) sc ce rho vs vs' n0 lim,
+  envOK sc ce rho vs n0 lim -> keepX K vs vs' -> (forall i, kept sc ce i -> K i) -> envOK sc ce rho vs' n0 lim.
+Proof. intros K sc ce rho vs vs' n0 lim H [_ C] HK. eapply envOK_same; eauto. Qed.
 
 Lemma envOK_lim : forall sc ce rho vs n0 lim lim', envOK sc ce rho vs n0 lim -> lim <= lim' -> envOK sc ce rho vs n0 lim'.
 Proof.
@@ -88,7 +88,8 @@ Variable nt : natives.
 Variable code : list instr.
 
 Notation steps := (steps nt code).
-Notation G := (G nt code).
+Notation G2 := (G2 nt code).
+Notation G c ws T := (Gen.G2 nt code c ws T T).
 Notation Tend := (Tend nt code).
 Notation at_ := (at_ code).
 
@@ -110,15 +111,16 @@ Proof.
 Qed.
 
 (* a context for code of the frame on top of sc: own variables at addresses [lo,hi), entered at offset o *)
-Definition ctx_of (sc : list frame) (pc' : nat) (st : list sv) (fk : list fork) (lo hi o ko : nat) (K : nat -> Prop)
+Definition ctx_of (sc : list frame) (pc' : nat) (st : list sv) (fk : list fork) (lo hi o ko : nat) (K K0 : nat -> Prop)
   (ce : cenv) (n0 t : nat) : gctx :=
   {| g_sc := sc; g_pc := pc'; g_st := st; g_base := fk; g_own := fun i => lo <= i < hi \/ o <= i; g_keep := K;
-     g_ce := ce; g_n0 := n0; g_off := o; g_koff := ko; g_ctr := t |}.
+     g_keep0 := K0; g_ce := ce; g_n0 := n0; g_off := o; g_koff := ko; g_ctr := t |}.
 
-(* P is stable under the generator's own writes and under a continuation that preserves the kept slots *)
+(* P is stable under the generator's own writes and under a continuation that preserves the slots that are
+   kept even after the generator is over *)
 Definition stable (c : gctx) (P : list sv -> nat -> gx -> Prop) : Prop :=
   (forall a b m g m' g', P a m g -> chg (g_own c) a b -> cle m g m' g' -> P b m' g') /\
-  (forall a b m g m' g', P a m g -> keepK c a b -> cle m g m' g' -> P b m' g').
+  (forall a b m g m' g', P a m g -> keepK0 c a b -> cle m g m' g' -> P b m' g').
 
 (* the frame on top of sc has scope id cur and offset base; the ids along the scope chain do not exceed cur
    (a frame's outer frames belong to lexically enclosing scopes, which were created earlier) *)
@@ -128,10 +130,10 @@ Definition frameOK (sc : list frame) (cur base : nat) : Prop :=
 Definition Impl (q : query) : Prop :=
   forall sc cur base, frameOK sc cur base ->
   forall ce pc nv sn cq nv' sn', comp q ce cur pc nv sn = Some (cq, nv', sn') -> code_at pc cq ->
-  forall rho v st fk vs n n0 o ko g (K : nat -> Prop) (P : list sv -> nat -> gx -> Prop),
+  forall rho v st fk vs n n0 o ko g (K K0 : nat -> Prop) (P : list sv -> nat -> gx -> Prop),
     envOK sc ce rho vs n0 (base + nv) -> n0 <= n -> base + nv' <= ko -> ko <= o -> o <= length vs ->
-    (forall i, base + nv <= i < base + nv' -> K i) -> (forall i, kept sc ce i -> K i) ->
-    let c := ctx_of sc (pc + length cq) st fk (base + nv) (base + nv') o ko K ce n0 (ctr g) in
+    (forall i, base + nv <= i < base + nv' -> K i) -> (forall i, kept sc ce i -> K i) -> (forall i, K0 i -> K i) ->
+    let c := ctx_of sc (pc + length cq) st fk (base + nv) (base + nv') o ko K K0 ce n0 (ctr g) in
     stable c P -> P vs n g ->
     G c (fst (den nt q rho v)) (Tend c (snd (den nt q rho v)) P) (N sc pc (SV v :: st) fk vs n o g).
 
@@ -139,14 +141,12 @@ Definition Impl (q : query) : Prop :=
 Lemma G_single : forall c w s vs3 n3 o3 g3 (P : list sv -> nat -> gx -> Prop),
   steps s (N (g_sc c) (g_pc c) (SV w :: g_st c) (g_base c) vs3 n3 o3 g3) -> chg (g_own c) (vars_of s) vs3 ->
   cle (lbl_of s) (gx_of s) n3 g3 -> g_off c <= o3 <= length vs3 ->
-  (forall vs2 n2 g2, keepK c vs3 vs2 -> cle n3 g3 n2 g2 -> P vs2 n2 g2) ->
+  (forall vs2 n2 g2, keepK0 c vs3 vs2 -> cle n3 g3 n2 g2 -> P vs2 n2 g2) ->
   G c [w] (Tend c None P) s.
 Proof.
   intros c w s vs3 n3 o3 g3 P St Ch Le Ho HP. simpl. exists [], vs3, n3, o3, g3. simpl.
-  split; [auto|]. split; [auto|]. split; [auto|]. split; [auto|]. intros vs2 n2 g2 K L. split.
-  - exists (B None (g_base c) vs2 n2 g2). split; [constructor|]. split; [apply chg_refl|]. split; [apply cle_refl|].
-    exists None, vs2, n2, g2. split; [constructor|]. split; [apply chg_refl|]. split; [apply cle_refl|]. split; [reflexivity|auto].
-  - intros x _. exists vs2, n2, g2. split; [constructor|]. split; [apply chg_refl|apply cle_refl].
+  split; [auto|]. split; [auto|]. split; [auto|]. split; [auto|]. split; [reflexivity|]. intros vs2 n2 g2 K L.
+  exists None, vs2, n2, g2. split; [constructor|]. split; [apply chg_refl|]. split; [apply cle_refl|]. split; [reflexivity|auto].
 Qed.
 
 (* no output: the enumeration ends *)
@@ -160,43 +160,51 @@ Proof.
   exists e, vs3, n3, g3. auto.
 Qed.
 
-Lemma G_cons : forall c w ws (T : state -> Prop) s fk' vs3 n3 o3 g3,
-  steps s (N (g_sc c) (g_pc c) (SV w :: g_st c) (fk' ++ g_base c) vs3 n3 o3 g3) ->
+Lemma G_cons : forall c w ws (T Tw : state -> Prop) s f0 fk0 vs3 n3 o3 g3,
+  steps s (N (g_sc c) (g_pc c) (SV w :: g_st c) ((f0 :: fk0) ++ g_base c) vs3 n3 o3 g3) ->
   chg (g_own c) (vars_of s) vs3 -> cle (lbl_of s) (gx_of s) n3 g3 ->
-  g_off c <= o3 <= length vs3 -> Forall (fun f => g_ctr c <= f_ctr f) fk' ->
-  (forall vs2 n2 g2, keepS' c o3 fk' vs3 vs2 -> cle n3 g3 n2 g2 ->
-     G c ws T (B None (fk' ++ g_base c) vs2 n2 g2) /\
+  g_off c <= o3 <= length vs3 -> Forall (fun f => g_ctr c <= f_ctr f) (f0 :: fk0) ->
+  (forall vs2 n2 g2, keepS c o3 vs3 vs2 -> cle n3 g3 n2 g2 ->
+     G2 c ws T Tw (B None ((f0 :: fk0) ++ g_base c) vs2 n2 g2) /\
      (forall x, okerr (g_n0 c) x -> exists vs4 n4 g4,
-         steps (B (Some x) (fk' ++ g_base c) vs2 n2 g2) (B (Some x) (g_base c) vs4 n4 g4) /\
+         steps (B (Some x) ((f0 :: fk0) ++ g_base c) vs2 n2 g2) (B (Some x) (g_base c) vs4 n4 g4) /\
          chg (g_own c) vs2 vs4 /\ cle n2 g2 n4 g4)) ->
-  G c (w :: ws) T s.
-Proof. intros. simpl. exists fk', vs3, n3, o3, g3. split; [auto|]. split; [auto|]. split; [auto|]. split; auto. Qed.
+  G2 c (w :: ws) T Tw s.
+Proof. intros. simpl. exists (f0 :: fk0), vs3, n3, o3, g3. split; [auto|]. split; [auto|]. split; [auto|]. split; auto. Qed.
 
 (* change of the exit pc by silent steps that keep the state *)
-Lemma G_exit : forall sc pc1 pc2 st fk (O K : nat -> Prop) ce n0 o ko t (T : state -> Prop),
+Lemma G_exit : forall sc pc1 pc2 st fk (O K K0 : nat -> Prop) ce n0 o ko t (T Tw : state -> Prop),
   (forall w f vs n o' g, steps (N sc pc1 (SV w :: st) f vs n o' g) (N sc pc2 (SV w :: st) f vs n o' g)) ->
   forall ws s,
-  G {| g_sc := sc; g_pc := pc1; g_st := st; g_base := fk; g_own := O; g_keep := K; g_ce := ce; g_n0 := n0; g_off := o; g_koff := ko; g_ctr := t |} ws T s ->
-  G {| g_sc := sc; g_pc := pc2; g_st := st; g_base := fk; g_own := O; g_keep := K; g_ce := ce; g_n0 := n0; g_off := o; g_koff := ko; g_ctr := t |} ws T s.
+  G2 {| g_sc := sc; g_pc := pc1; g_st := st; g_base := fk; g_own := O; g_keep := K; g_keep0 := K0; g_ce := ce; g_n0 := n0; g_off := o; g_koff := ko; g_ctr := t |} ws T Tw s ->
+  G2 {| g_sc := sc; g_pc := pc2; g_st := st; g_base := fk; g_own := O; g_keep := K; g_keep0 := K0; g_ce := ce; g_n0 := n0; g_off := o; g_koff := ko; g_ctr := t |} ws T Tw s.
 Proof.
-  intros sc pc1 pc2 st fk O K ce n0 o ko t T Hs. induction ws; simpl; intros s HG; auto.
+  intros sc pc1 pc2 st fk O K K0 ce n0 o ko t T Tw Hs. induction ws; simpl; intros s HG; auto.
   destruct HG as (fk' & vs3 & n3 & o3 & g3 & St & Ch & Le & Ho & R). exists fk', vs3, n3, o3, g3.
   split; [eapply steps_trans; [exact St|apply Hs]|]. split; [auto|]. split; [auto|]. split; [auto|].
+  destruct fk' as [|f0 fk0]; [exact R|].
   intros vs2 n2 g2 Kp L2. destruct (R vs2 n2 g2 Kp L2) as [R1 R2]. split; auto.
 Qed.
 
 (* weakening: larger own set, same keep set, smaller n0 *)
+Lemma G2_sub : forall cb c (T T' Tw Tw' : state -> Prop),
+  g_sc cb = g_sc c -> g_pc cb = g_pc c -> g_st cb = g_st c -> g_base cb = g_base c ->
+  (forall i, g_own cb i -> g_own c i) -> (forall o a b, keepS c o a b -> keepS cb o a b) -> (forall a b, keepK0 c a b -> keepK0 cb a b) -> g_n0 c <= g_n0 cb ->
+  g_off c <= g_off cb -> g_ctr c <= g_ctr cb ->
+  (forall s, T s -> T' s) -> (forall s, Tw s -> Tw' s) ->
+  forall ws s, G2 cb ws T Tw s -> G2 c ws T' Tw' s.
+Proof.
+  intros cb c T T' Tw Tw' H0 H1 H2 H3 H4 H5 H5' H6 H8 H9 H7 H7' ws s HG.
+  refine (G_ctx nt code cb c [] (fun _ _ _ => True) T Tw T' Tw' H0 H1 H2 H3 H4 H5 (fun _ a b H => H5' a b H) H6 H8 H9 (Forall_nil _) _ _ _ _ _ ws s I HG); auto.
+  intros x vs n g _ _. exists vs, n, g. split; [constructor|]. split; [apply chg_refl|apply cle_refl].
+Qed.
 Lemma G_sub : forall cb c (T T' : state -> Prop),
   g_sc cb = g_sc c -> g_pc cb = g_pc c -> g_st cb = g_st c -> g_base cb = g_base c ->
-  (forall i, g_own cb i -> g_own c i) -> (forall o a b, keepS c o a b -> keepS cb o a b) -> (forall a b, keepK c a b -> keepK cb a b) -> g_n0 c <= g_n0 cb ->
+  (forall i, g_own cb i -> g_own c i) -> (forall o a b, keepS c o a b -> keepS cb o a b) -> (forall a b, keepK0 c a b -> keepK0 cb a b) -> g_n0 c <= g_n0 cb ->
   g_off c <= g_off cb -> g_ctr c <= g_ctr cb ->
   (forall s, T s -> T' s) ->
   forall ws s, G cb ws T s -> G c ws T' s.
-Proof.
-  intros cb c T T' H0 H1 H2 H3 H4 H5 H5' H6 H8 H9 H7 ws s HG.
-  refine (G_ctx nt code cb c [] (fun _ _ _ => True) T T' H0 H1 H2 H3 H4 H5 H5' H6 H8 H9 (Forall_nil _) _ _ _ _ ws s I HG); auto.
-  intros x vs n g _ _. exists vs, n, g. split; [constructor|]. split; [apply chg_refl|apply cle_refl].
-Qed.
+Proof. intros. eapply G2_sub; eauto. Qed.
 
 Lemma seq_nil_r : forall r, seq r ([], None) = r.
 Proof. intros [ws [x|]]; simpl; auto. rewrite app_nil_r. auto. Qed.
